@@ -320,3 +320,37 @@ func loadCase[C any](path string) (C, error) {
 
 // LoadCase loads a replay case for checks that do not use Drive.
 func LoadCase[C any](path string) (C, error) { return loadCase[C](path) }
+
+// DriveFuzz runs the same generator and oracle under Go's native coverage-guided fuzzer: the fuzzer mutates
+// the byte stream that rapid turns into draws (rapid.MakeFuzz). Used by the thorough tier for the byte-level
+// properties. Evidence is flushed periodically because fuzz worker processes are killed, not returned from.
+func DriveFuzz[C any](f *testing.F, prop, test, rule string, gen func(*rapid.T) C, run func(C) *Result) {
+	s := Begin(prop, test, rule)
+	s.shard = fmt.Sprintf("%s-%d", s.shard, os.Getpid())
+	f.Add([]byte{0})
+	f.Add([]byte{1, 2, 3, 4, 5, 6, 7, 8, 9, 10, 11, 12, 13, 14, 15, 16, 255, 254, 253, 252, 0, 0, 0, 0, 127, 128})
+	n := 0
+	f.Fuzz(rapid.MakeFuzz(func(rt *rapid.T) {
+		c := gen(rt)
+		var r *Result
+		g := &Result{}
+		Guard(g, func() { r = run(c) })
+		if g.Err != "" {
+			if r == nil {
+				r = g
+			} else {
+				r.Err = g.Err
+			}
+		}
+		s.Record(c, r)
+		n++
+		if r.Err != "" {
+			s.Fail(c, r.Err)
+			s.End()
+			rt.Fatalf("%s violated: %s", prop, r.Err)
+		}
+		if n%2000 == 0 {
+			s.End()
+		}
+	}))
+}
